@@ -72,6 +72,15 @@ type c08Src struct {
 	pos    int
 }
 
+// Len: how many bytes have ARRIVED so far and not been read (a packet queue's meaning of Len, not
+// "everything that will ever come"); nothing in the library may take it for the length of the stream
+func (s *c08Src) Len() int {
+	if len(s.chunks) > 0 && s.chunks[0] < len(s.data)-s.pos {
+		return s.chunks[0]
+	}
+	return len(s.data) - s.pos
+}
+
 func (s *c08Src) Read(p []byte) (int, error) {
 	room := len(p)
 	c := room
